@@ -161,17 +161,12 @@ theorem inv_setPodSame (s : State) (id : String × String) (p p' : Pod) (evs : L
     · exact Or.inl ⟨he, liveBound_of_set_ne hq he⟩
   refine ⟨coherent_of_eq h.coh rfl rfl rfl rfl, ?_, ?_, ?_, ?_, ?_, ?_, h.uidPos, Tbl.nodup_keys_set _ _ h.podsNodup,
     h.vPodsNodup⟩
-  · refine ⟨fun q hq hd hm => ?_, fun q hq ip r hg hk => ?_⟩
-    · rcases hlb q hq with ⟨_, hq'⟩ | ⟨e, hq'⟩
-      · exact h.safe.own q hq' hd hm
-      · subst e
-        obtain ⟨r, h1, h2, h3⟩ := h.safe.own p hq' hd (by rw [← hh]; exact hm)
-        exact ⟨r, h1, by rw [h2, hkey], by rw [h3, huid]⟩
-    · rcases hlb q hq with ⟨_, hq'⟩ | ⟨e, hq'⟩
-      · exact h.safe.keyUids q hq' ip r hg hk
-      · subst e
-        have := h.safe.keyUids p hq' ip r hg (by rw [hk, hkey])
-        rw [huid]; exact this
+  · refine ⟨fun q hq hd hm => ?_⟩
+    rcases hlb q hq with ⟨_, hq'⟩ | ⟨e, hq'⟩
+    · exact h.safe.own q hq' hd hm
+    · subst e
+      obtain ⟨r, h1, h2, h3⟩ := h.safe.own p hq' hd (by rw [← hh]; exact hm)
+      exact ⟨r, h1, by rw [h2, hkey], by rw [h3, huid]⟩
   · intro id' q hg
     by_cases e1 : id = id'
     · subst e1
